@@ -48,10 +48,25 @@ var pfTypes = []pfType{
 	// interface as `any` (known finding F30); the shape is that pinned behaviour, so that the rest of the field list is
 	// still compared with the model, and the oracle reports the field itself
 	{"interface{ Do() }", TShape{K: "any"}, "unnamed-interface"},
+	// instantiated generic types (of the library package and of the origin's own package), at the top of a field type
+	// and below a pointer in a map: the type arguments are part of the type
+	{"lib.Box[lib.ID]", TShape{K: "named", Path: genMod + "/lib", Name: "Box", Args: []TShape{{K: "named", Path: genMod + "/lib", Name: "ID"}}}, "generic-instance"},
+	{"lib.Box[Item]", TShape{K: "named", Path: genMod + "/lib", Name: "Box", Args: []TShape{{K: "named", Path: "{o}", Name: "Item"}}}, "generic-instance"},
+	{"Gen[Kind]", TShape{K: "named", Path: "{o}", Name: "Gen", Args: []TShape{{K: "named", Path: "{o}", Name: "Kind"}}}, "generic-instance"},
+	{"map[string]*lib.Pair[lib.ID,int]", TShape{K: "map", Args: []TShape{{K: "basic", Name: "string"}, {K: "ptr", Args: []TShape{{K: "named", Path: genMod + "/lib", Name: "Pair", Args: []TShape{{K: "named", Path: genMod + "/lib", Name: "ID"}, {K: "basic", Name: "int"}}}}}}}, "map"},
 }
 
-const pfMainTypes = 22
+// the main menu: everything but the unnamed interface (index pfUnnamedIface, which has a stream of its own)
+const pfMainTypes = 26
 const pfUnnamedIface = 22
+
+func pfPickMain(r *Rng) int {
+	n := r.Intn(pfMainTypes)
+	if n >= pfUnnamedIface {
+		n++
+	}
+	return n
+}
 
 const partialConf = "package conf\n\ntype Conf struct {\n\tN int\n\tL []string\n}\n"
 
@@ -84,7 +99,7 @@ type partialRes struct {
 
 func (c *partialCase) originSrc(pkg string) string {
 	var b strings.Builder
-	fmt.Fprintf(&b, "package %s\n\nimport (\n\t\"time\"\n\n\t\"%s/lib\"\n\t\"%s/%s/internal/conf\"\n)\n\nvar _ time.Duration\nvar _ lib.Thing\n\ntype Item struct {\n\tA int\n\tB []string\n}\n\ntype Kind string\n\ntype Doer interface{ Do() }\n\ntype settings struct {\n\tN int\n\tM map[string]int\n}\n\ntype (\n\tItemAlias = Item\n\tSettings  = settings\n\tConf      = conf.Conf\n\tText      = string\n)\n\n", pkg, genMod, genMod, pkg)
+	fmt.Fprintf(&b, "package %s\n\nimport (\n\t\"time\"\n\n\t\"%s/lib\"\n\t\"%s/%s/internal/conf\"\n)\n\nvar _ time.Duration\nvar _ lib.Thing\n\ntype Item struct {\n\tA int\n\tB []string\n}\n\ntype Kind string\n\ntype Gen[T any] struct{ V T }\n\ntype Doer interface{ Do() }\n\ntype settings struct {\n\tN int\n\tM map[string]int\n}\n\ntype (\n\tItemAlias = Item\n\tSettings  = settings\n\tConf      = conf.Conf\n\tText      = string\n)\n\n", pkg, genMod, genMod, pkg)
 	b.WriteString("type T struct {\n")
 	for _, f := range c.Fields {
 		if f.Doc != "" {
@@ -135,7 +150,7 @@ func (c *partialCase) partialSrc(pkg, origin string) string {
 
 // lib.Thing is a type as API packages declare them: it brings its own DeepCopy / DeepCopyInto (declared last).  The partial
 // struct generator looks for DeepCopyAs / DeepCopyIntoAs, which it does not have.
-const partialLib = "package lib\n\ntype Thing struct {\n\tN int\n\tS []int\n}\n\nfunc (in *Thing) Len() int { return len(in.S) }\n\nfunc (in *Thing) DeepCopy() *Thing {\n\tif in == nil {\n\t\treturn nil\n\t}\n\tout := new(Thing)\n\tin.DeepCopyInto(out)\n\treturn out\n}\n\nfunc (in *Thing) DeepCopyInto(out *Thing) {\n\t*out = *in\n\tif in.S != nil {\n\t\tout.S = append([]int(nil), in.S...)\n\t}\n}\n"
+const partialLib = "package lib\n\ntype Thing struct {\n\tN int\n\tS []int\n}\n\ntype ID string\n\ntype Box[T any] struct{ V T }\n\ntype Pair[K comparable, V any] struct {\n\tKey K\n\tVal V\n}\n\nfunc (in *Thing) Len() int { return len(in.S) }\n\nfunc (in *Thing) DeepCopy() *Thing {\n\tif in == nil {\n\t\treturn nil\n\t}\n\tout := new(Thing)\n\tin.DeepCopyInto(out)\n\treturn out\n}\n\nfunc (in *Thing) DeepCopyInto(out *Thing) {\n\t*out = *in\n\tif in.S != nil {\n\t\tout.S = append([]int(nil), in.S...)\n\t}\n}\n"
 
 func (c *partialCase) replacedField() string {
 	if c.Replace == "" {
@@ -394,7 +409,9 @@ func (c *partialCase) observe() string {
 					tag = strings.Trim(fl.Tag.Value, "`")
 				}
 				for _, nm := range fl.Names {
-					fields = append(fields, hx(nm.Name)+"|"+hx(str(fl.Type))+"|"+hx(tag))
+					// (the file is formatted: gofmt puts a space after the commas of a type argument list, the type printer
+					// does not — white space after a comma is not part of the type)
+					fields = append(fields, hx(nm.Name)+"|"+hx(strings.ReplaceAll(str(fl.Type), ", ", ","))+"|"+hx(tag))
 				}
 			}
 		}
@@ -607,7 +624,7 @@ func genPartial(r *Rng) *partialCase {
 	c := &partialCase{}
 	n := 1 + r.Intn(6)
 	for i := 0; i < n; i++ {
-		f := PField{Name: fmt.Sprintf("F%d", i), Ty: r.Intn(pfMainTypes), Tag: Pick(r, pfTags)}
+		f := PField{Name: fmt.Sprintf("F%d", i), Ty: pfPickMain(r), Tag: Pick(r, pfTags)}
 		if r.Chance(30) {
 			f.Doc = Pick(r, []string{"F documented", "with \"quotes\" and %v", fmt.Sprintf("F%d is a field", i)})
 		}
@@ -646,7 +663,7 @@ func genPartialIface(r *Rng) *partialCase {
 	n := 1 + r.Intn(4)
 	k := r.Intn(n)
 	for i := 0; i < n; i++ {
-		f := PField{Name: fmt.Sprintf("F%d", i), Ty: r.Intn(pfMainTypes), Tag: Pick(r, pfTags)}
+		f := PField{Name: fmt.Sprintf("F%d", i), Ty: pfPickMain(r), Tag: Pick(r, pfTags)}
 		if i == k {
 			f.Ty = pfUnnamedIface
 		}
@@ -753,7 +770,7 @@ func init() {
 			Name: "origins", Quick: 500, Thorough: 4000, New: func() Case { return &partialCase{} },
 			Gen:      func(r *Rng, i int) Case { return genPartial(r) },
 			BatchRun: partialBatch, ShrinkBudget: 25, MaxShrinks: 6,
-			Rule: "origin structs in a second package with 1–6 fields over a menu of 22 types (scalars, slices, maps, arrays, pointers, named types of the origin's package, of another module package and of time, error, any, a defined interface, exported aliases of the origin's package for a struct of that package, for an unexported struct, for a struct of an internal package and for string) and 8 tags (dots, commas, brackets, non-ASCII, %v, @x), every combination of omit tags and sometimes a replace tag; the deepcopy generator runs first in the same Execute, and in a third of the packages it has a struct to generate for whose fields have the same foreign named types (lib.Thing brings its own DeepCopy methods) (a third of them naming a field that is also omitted); `type x origin.T` generated with the real generator (100 per Execute), compiled, and a probe reflecting over the generated struct vs the origin (names, order, types, tags) and running DeepCopyAs on a value whose containers are allocated but empty, on a filled value and on nil; compared with the model: field list as name / printed type / tag",
+			Rule: "origin structs in a second package with 1–6 fields over a menu of 26 types (instantiated generic types of the library package and of the origin's own package among them, at the top of a field type and below a pointer in a map; scalars, slices, maps, arrays, pointers, named types of the origin's package, of another module package and of time, error, any, a defined interface, exported aliases of the origin's package for a struct of that package, for an unexported struct, for a struct of an internal package and for string) and 8 tags (dots, commas, brackets, non-ASCII, %v, @x), every combination of omit tags and sometimes a replace tag; the deepcopy generator runs first in the same Execute, and in a third of the packages it has a struct to generate for whose fields have the same foreign named types (lib.Thing brings its own DeepCopy methods) (a third of them naming a field that is also omitted); `type x origin.T` generated with the real generator (100 per Execute), compiled, and a probe reflecting over the generated struct vs the origin (names, order, types, tags) and running DeepCopyAs on a value whose containers are allocated but empty, on a filled value and on nil; compared with the model: field list as name / printed type / tag",
 		},
 		{
 			Name: "unnamed-interfaces", Quick: 40, Thorough: 300, New: func() Case { return &partialCase{} },
